@@ -216,6 +216,21 @@ func init() {
 					return foreign(v)
 				}
 				opts2.Strategy = strategyOf(c.Tape)
+				if c.Tape.Choose(simrt.StGen, 3, 0) == 1 {
+					// the first part was run by an older version of the library, whose
+					// records had no OutFiles field: such records are loaded as they are
+					// and end up in the lineage; the converters must cope
+					for pth, e := range WorkFiles(inc1.Sim.FS.Root) {
+						if e.Kind != simrt.KFile || !strings.HasSuffix(pth, ".audit.json") {
+							continue
+						}
+						if m, err := parseAny(e.Data); err == nil {
+							b, _ := json.MarshalIndent(dropKey(m, "OutFiles"), "", "    ")
+							inc1.Sim.FS.PutFile(pth, b)
+						}
+					}
+					c.Fault("old-format-records")
+				}
 				inc2 := RunInc(w, c.Tape, inc1.Sim.FS.Root, inc1.Sim.FS.NextIno, opts2)
 				c.Absorb(inc2)
 				if v, ok := inconclusiveEnd(inc2); ok {
@@ -312,6 +327,22 @@ func init() {
 		}})
 }
 
+// dropKey removes a key from a decoded JSON object, recursively.
+func dropKey(v any, key string) any {
+	m, ok := v.(map[string]any)
+	if !ok {
+		return v
+	}
+	out := map[string]any{}
+	for k, x := range m {
+		if k == key {
+			continue
+		}
+		out[k] = dropKey(x, key)
+	}
+	return out
+}
+
 // InitialTree: the working directory holding only the source files.
 func InitialTree(c *Case, w *WF) *simrt.Inode {
 	_, root := freshFS(c, w)
@@ -366,6 +397,22 @@ func convertAndCheck(cli, dir, target string, recs map[string]*flatRec) (Verdict
 		for _, id := range ids {
 			if recs[id] == nil {
 				return Viol("report-unknown-record", "", "audit2%s of %s lists an id %s that is not in the lineage", kind, target, id)
+			}
+		}
+		// "every task exactly once": a task is identified by what it did (process and
+		// exact command; commands name the task's unique output paths), not by the id
+		// its record happens to carry - one task that is listed under two ids (the
+		// records of its several outputs) is listed twice
+		byTask := map[string][]string{}
+		for _, id := range ids {
+			if r := recs[id]; r.Command != "" {
+				k := r.Proc + "\x00" + r.Command
+				byTask[k] = append(byTask[k], id)
+			}
+		}
+		for _, k := range sortedKeys(byTask) {
+			if l := byTask[k]; len(l) > 1 {
+				return Viol("report-listing", "", "audit2%s of %s: the task of process %q with command %q is listed %d times (under the record ids %v)", kind, target, recs[l[0]].Proc, recs[l[0]].Command, len(l), l)
 			}
 		}
 		for i := 1; i < len(ids); i++ {
@@ -441,6 +488,17 @@ func convertAndCheck(cli, dir, target string, recs map[string]*flatRec) (Verdict
 	}
 	for _, r := range recs {
 		wantProcs = append(wantProcs, r.Proc)
+	}
+	taskSeen := map[string]bool{}
+	for _, r := range recs {
+		if r.Command == "" {
+			continue
+		}
+		if k := r.Proc + "\x00" + r.Command; taskSeen[k] {
+			return Viol("report-listing", "", "audit2bash of %s: the task of process %q with command %q is in the script more than once (its records carry different ids)", target, r.Proc, r.Command), nil
+		} else {
+			taskSeen[k] = true
+		}
 	}
 	if m, x := multisetDiff(gotProcs, wantProcs); len(m)+len(x) > 0 {
 		sig := ""
